@@ -387,3 +387,50 @@ def c09_model_counts(tier, rng):
                 "obligation": "C09.model_counts_groups", "inputs": {"seed": base + k}, "observed": p[:3],
                 "required": "each read once, its models, its own group", "replay_call": "contracts.c_groups:replay_forward_counts"}]}
     return {"cases": n, "bound": "%d random read -> model relations" % n, "violations": [], "samples": [{"seed": base}]}
+
+
+# ---- labels of a YAML experiment belong to the files by position --------------------------------------------------------------------------------------
+@finite("C09.yaml_labels_by_position", ["C09", "C12"], note="the real InputDataStorage.get_samples_from_yaml on every ordering of 2-4 file names (incl. "
+        "orders that are not lexicographic, files in sub-folders) with a label per file: the parsed experiment has exactly the files of the YAML, one library each, "
+        "and the k-th file of the YAML carries the k-th label (in whatever order the files are kept); without labels a file is labelled by its base name")
+def c09_yaml_labels(tier, rng):
+    import contextlib, io, itertools, os, shutil, tempfile
+    ids = native.repo_import("src/input_data_storage.py")
+    base = os.path.join(os.path.dirname(os.path.dirname(os.path.abspath(__file__))), ".run")
+    os.makedirs(base, exist_ok=True)
+    d = tempfile.mkdtemp(prefix="ylab", dir=base)
+    obl = dis = 0
+    viol = []
+    try:
+        files = ["b.bam", "a.bam", "z/c.bam", "A2.bam"]
+        os.makedirs(os.path.join(d, "z"))
+        for f in files:
+            open(os.path.join(d, f), "w").close()
+        for n in (2, 3, 4):
+            for order in itertools.permutations(files, n):
+                for with_labels in (True, False):
+                    obl += 1
+                    labels = ["lab_%s" % os.path.basename(f)[0] for f in order]
+                    path = os.path.join(d, "in.yaml")
+                    with open(path, "w") as f:
+                        f.write('[\n  data format: "bam",\n  {\n    name: "E",\n    long read files: [%s]%s\n  }\n]\n'
+                                % (", ".join('"%s"' % x for x in order), (',\n    labels: [%s]' % ", ".join('"%s"' % x for x in labels)) if with_labels else ""))
+                    s = ids.InputDataStorage.__new__(ids.InputDataStorage)
+                    s.experiment_prefix, s.input_type = "RUN", "bam"
+                    with contextlib.redirect_stdout(io.StringIO()):
+                        sample_files, names, readable, _ill = s.get_samples_from_yaml(path)
+                    got_files = [lib[0] for lib in sample_files[0]]
+                    want_files = [os.path.normpath(os.path.join(d, x)) for x in order]
+                    want_labels = labels if with_labels else [os.path.splitext(os.path.basename(x))[0] for x in order]
+                    got_labels = [readable["E"].get(x) for x in want_files]
+                    if sorted(got_files) == sorted(want_files) and got_labels == want_labels and all(len(lib) == 1 for lib in sample_files[0]):
+                        dis += 1
+                    elif len(viol) < 3:
+                        viol.append({"obligation": "C09.yaml_labels_by_position.%s.%s" % ("labels" if with_labels else "plain", "_".join(os.path.basename(x) for x in order)),
+                                     "inputs": {"files": list(order), "labels": labels if with_labels else None},
+                                     "observed": {"files": [os.path.relpath(x, d) for x in got_files], "labels": got_labels},
+                                     "required": {"files": list(order), "labels": want_labels}})
+    finally:
+        shutil.rmtree(d, ignore_errors=True)
+    return {"obligations": obl, "discharged": dis, "violations": viol, "cases": obl, "exhaustive": True,
+            "bound": "all orderings of 2-4 of 4 files x with / without labels", "samples": [{"files": ["b.bam", "a.bam"], "labels": ["lab_b", "lab_a"]}]}
